@@ -280,7 +280,7 @@ func c17Run(c *Ctx) {
 	r = c.Rand("numeric")
 	for _, fn := range c17Unary {
 		vals := append([]float64{}, c17Boundary()...)
-		n := c.N(8000, 400000)
+		n := c.N(8000, 2000000)
 		for len(vals) < n {
 			vals = append(vals, RandDouble(r))
 		}
@@ -306,7 +306,7 @@ func c17Run(c *Ctx) {
 	}
 	// pow: built-in versus operator, bytes equal
 	{
-		n := c.N(6000, 300000)
+		n := c.N(6000, 2000000)
 		for i := 0; i < n; i += 60 {
 			var lines, b1, b2 []string
 			for j := 0; j < 60; j++ {
